@@ -293,6 +293,8 @@ type c15Hist struct {
 	// the user profiles the primary held at the last copy that reported success (a direct copy or a turn
 	// of the background copier); empty before the first
 	ghost map[string][]byte
+	// number of a stored profile by its bytes (the large history asks for the same two thousands of times)
+	idxMemo map[[32]byte]int
 }
 
 func (h *c15Hist) record(op, out string) {
@@ -310,6 +312,19 @@ func (h *c15Hist) tick() {
 }
 
 func (h *c15Hist) profIdx(b []byte) int {
+	key := sha256.Sum256(b)
+	if i, ok := h.idxMemo[key]; ok {
+		return i
+	}
+	i := h.profIdxOf(b)
+	if h.idxMemo == nil {
+		h.idxMemo = map[[32]byte]int{}
+	}
+	h.idxMemo[key] = i
+	return i
+}
+
+func (h *c15Hist) profIdxOf(b []byte) int {
 	c, err := c15CanonBytes(b)
 	if err != nil {
 		return 9998
@@ -340,6 +355,11 @@ func c15UserNo(u string) int {
 	for i, n := range c15Users {
 		if n == u && i > 0 {
 			return i
+		}
+	}
+	if strings.HasPrefix(u, "vol") { // the users of the large history (c15vol.go)
+		if n, err := strconv.Atoi(u[3:]); err == nil && n >= 0 {
+			return c15VolUserBase + n
 		}
 	}
 	return 99
@@ -515,14 +535,16 @@ func (h *c15Hist) getS(u, ty int) {
 	}
 }
 
-func (h *c15Hist) upsert(u, ty, d int, exp int64) {
+func (h *c15Hist) upsert(u, ty, d int, exp int64) { h.upsertNamed(c15Users[u], u, ty, d, exp) }
+
+func (h *c15Hist) upsertNamed(name string, u, ty, d int, exp int64) {
 	h.tick()
-	err := h.e.st.UpsertSigned(c15Users[u], ty, exp, "payload-"+strconv.Itoa(d))
+	err := h.e.st.UpsertSigned(name, ty, exp, "payload-"+strconv.Itoa(d))
 	h.record(fmt.Sprintf("(Upsert %d%%N %d%%N %d%%N (%d)%%Z)", u, ty, d, exp), errOut(err))
 	h.e.res.bump("op:upsert")
 	if err == nil {
 		var jws string
-		if e2 := h.e.admP.QueryRow("SELECT jws_data FROM expiring_signed_user_data WHERE username=? AND type=?", c15Users[u], ty).Scan(&jws); e2 == nil {
+		if e2 := h.e.admP.QueryRow("SELECT jws_data FROM expiring_signed_user_data WHERE username=? AND type=?", name, ty).Scan(&jws); e2 == nil {
 			h.jwsData[jws] = d
 		}
 	}
@@ -1112,6 +1134,10 @@ func c15OutageOracle(e *c15Env, route string, m int, status int, bp, ap, bc, ac 
 func TestVerif_C15(t *testing.T) {
 	res := newVerifResult("part 1: random histories (<= 9 ops of save / delete user / upsert / delete signed / sync / cleanup / load / get-signed / mode switch over 3 users, 2 record types, 6 rich profiles, expiries {-2h,-15m,+15m,+1d,+96h}) on a real SQLite pair; every synchronisation of the first histories repeated with a fault at statement k for every k (wrapping database/sql driver), the others with one random fault; an expiry-boundary scenario on the real clock; the Coq model runs the same histories. part 2: gob round trip of random rich profiles through primary and cache. part 3: 20 driven handler requests x {up, slow, dead} with stale cache (model handler classes) and every route of the regenerated mux x {GET, POST} x {user, admin} x {slow, dead}; non-trivial = stores not empty / request reached a handler; distinct by (op shape, outcome)")
 	e := c15Setup(t, res)
+	// what "a destination transaction is all or nothing" needs of the cache connections that initDB opened
+	c15WriteConnConsts(e)
+	c15JournalOracle(e, 0, "start-up")
+	probedAtStart := len(e.connProbes)
 	rng := verifRand()
 	mat := c15NewMaterial(e)
 	pool := mat.pool()
@@ -1391,6 +1417,16 @@ func TestVerif_C15(t *testing.T) {
 	if len(e.env.panics) > 0 {
 		res.Extra["panics"] = e.env.panics
 	}
+
+	// ---------------- volume: a cache larger than SQLite's page cache, faults at late statements of the copy
+	// (last: a tree that leaves the cache file damaged here must not take the other parts with it)
+	runHistory(-2, c15LargeHistory)
+	res.Extra["fault_points"] = totalFaults
+	// the connections of every restart were probed too
+	c15JournalOracle(e, probedAtStart, "after a restart")
+	c15WriteConnConsts(e)
+	res.Extra["cache_connections_probed"] = len(e.connProbes)
+	res.Extra["connection_settings_carried"] = e.connCarried
 
 	// ---------------- case files
 	var sb strings.Builder
